@@ -375,6 +375,22 @@ class GraphCheck:
                         elif len(df) != len(set(df)):
                             bad("depth_first_duplicates", f"from {s}: yielded {df}", adj)
                         bump("depth_first")
+                        # breadth-first from a node: the property promises "every node once with parents first" for the
+                        # iteration; from a start node the weakest reading is judged -- nothing twice, nothing that is not
+                        # reachable from the start, no node before one of its parents that is yielded too.  (Completeness is
+                        # not judged: the unchanged code leaves out a descendant one of whose parents is an ANCESTOR of the
+                        # start node, e.g. A->B, A->C, B->C: breadth_first(B) yields only B.)
+                        bfs = [idx(x) for x in g.breadth_first(nodes[s])]
+                        posn = {}
+                        for i, x in enumerate(bfs):
+                            posn.setdefault(x, i)
+                        if len(bfs) != len(set(bfs)):
+                            bad("breadth_first_from_node_duplicates", f"from {s}: yielded {bfs}", adj)
+                        elif not set(bfs) <= exp:
+                            bad("breadth_first_from_node_unreachable", f"from {s}: yielded {bfs}, reachable {sorted(exp)}", adj)
+                        elif any(p in posn and c in posn and posn[p] > posn[c] for p in adj for c in adj[p]):
+                            bad("breadth_first_from_node_order", f"from {s}: yielded {bfs}", adj)
+                        bump("breadth_first_from_node")
                     dfa = [idx(x) for x in g.depth_first()]
                     if set(dfa) != set(adj) or len(dfa) != len(set(dfa)):
                         bad("depth_first_all" if set(dfa) != set(adj) else "depth_first_duplicates", f"from sources: yielded {dfa}", adj)
